@@ -155,7 +155,10 @@ func judgeC04(sc *Scope, rings [][]ref.P, acc *Acc) []Problem {
 			for _, z := range ids {
 				dec, bad := decode(sc.G, z, res[z])
 				if bad != "" {
+					// a coordinate that is no pixel centre of this id at all is, a fortiori, not the pixel centre of an
+					// input vertex (first clause); C04 runs on synthetic dyadic grids only, where decoding is exact
 					acc.Extra["undecodable(C03)"]++
+					probs = append(probs, Problem{Sig: "vertex-not-a-pixel-centre", What: fmt.Sprintf("id %d: %s", z, bad), IDs: ids, Cfg: cfg, Got: res})
 					continue
 				}
 				m := model(sc.G, units, z)
